@@ -229,3 +229,98 @@ def run_instance(name, params, seconds):
 
 def extra_evidence(results):
     return {"data_shapes_enumerated": sum(r.get("shapes", 0) for r in results)}
+
+
+# ---------------------------------------------------------------------------------------------
+# history conversion (symbolic) and real close / reopen (at solver-chosen concrete histories)
+from rope.base import change as _change, project as _rproject  # noqa: E402
+from rsx import mfs as _mfs  # noqa: E402
+
+_ROOT = "/rsx-mfs-root"
+_FILES = ["a.py", "b.py", "d/c.py"]
+
+
+NEST = [True]
+
+
+def _sym_change(proj, i, depth=0):
+    """a solver-chosen change with symbolic contents; returns (change, descriptor)"""
+    kind = choose("hk%d_%d" % (depth, i), 5 if (depth == 0 and NEST[0]) else 4)
+    f = _FILES[choose("hf%d_%d" % (depth, i), len(_FILES))]
+    if kind == 0:
+        new = sym_str("hn%d_%d" % (depth, i), choose("hl%d_%d" % (depth, i), 2), ranges=((10, 10), (36, 36), (49, 49), (0xE9, 0xE9)))
+        old = "a" if choose("hh%d_%d" % (depth, i), 2) else None
+        return _change.ChangeContents(proj.get_file(f), new, old)
+    if kind == 1:
+        g = _FILES[choose("hg%d_%d" % (depth, i), len(_FILES))]
+        return _change.MoveResource(proj.get_file(f), g, exact=True)
+    if kind == 2:
+        return _change.CreateResource(proj.get_file(f) if choose("hd%d_%d" % (depth, i), 2) else proj.get_folder("d"))
+    if kind == 3:
+        return _change.RemoveResource(proj.get_file(f))
+    cs = _change.ChangeSet(sym_str("hdsc%d" % i, 1, ranges=((97, 98),)), timestamp=sym_int("ht%d" % i, 0, 10))
+    for j in range(1 + choose("hcn%d" % i, 2)):
+        cs.add_change(_sym_change(proj, 10 * (i + 1) + j, depth + 1))
+    return cs
+
+
+def make_history_run(p):
+    n = p["n"]
+
+    def run():
+        fs = _mfs.MFS(_ROOT, _FILES, ["d"])
+        fs.init_concrete({"a.py": b"x\n", "d": None})
+        undo = _mfs.install(fs)
+        try:
+            proj = _rproject.Project(_ROOT, ropefolder=None, automatic_soa=False)
+            to_data = _change.ChangeToData()
+            NEST[0] = n == 1
+            changes = [_sym_change(proj, i) for i in range(n)]
+            data = [to_data(c) for c in changes]
+            ver = choose("ver", 2) + 1
+            try:
+                enc = serializer.python_to_json(data, ver)
+            except (ValueError, TypeError, AssertionError) as e:
+                return h.fail("history_encode_raised", "python_to_json of history data raised %s: %s" % (type(e).__name__, e), value=data, version=ver)
+            if not native(enc):
+                return h.fail("not_json_native", "encoded history is not JSON-native", value=data, version=ver)
+            m = core.ENGINE.fresh_model()
+            cenc = concretize(enc, m)
+            if json.loads(json.dumps(cenc)) != cenc:
+                return h.fail("json_text_roundtrip", "json text round trip changed the encoded history", model=m, value=data, version=ver)
+            dec = serializer.json_to_python(enc)
+            back = [_change.DataToChange(proj)(d) for d in dec]
+            data2 = [to_data(c) for c in back]
+            if not same(data2, data):
+                return h.fail("history_roundtrip_mismatch", "ChangeToData -> serializer -> DataToChange -> ChangeToData is not the identity", value=data, version=ver)
+            for c1, c2 in zip(changes, back):
+                if type(c2).__name__ != ("CreateResource" if isinstance(c1, _change.CreateResource) else type(c1).__name__):
+                    return h.fail("history_kind_changed", "change kind %s became %s" % (type(c1).__name__, type(c2).__name__), value=data, version=ver)
+            return h.sample(value=data, version=ver)
+        finally:
+            undo()
+
+    return run
+
+
+_OLD_INSTANCES = instances
+_OLD_RUN_INSTANCE = run_instance
+
+
+def instances(tier):  # noqa: F811
+    out = _OLD_INSTANCES(tier)
+    for n in (1, 2):
+        out.append(("history.n%d" % n, dict(kind="history", n=n)))
+    for k in range(6):
+        out.append(("reopen.%d" % k, dict(kind="reopen", k=k)))
+    return out
+
+
+def run_instance(name, params, seconds):  # noqa: F811
+    if params.get("kind") == "history":
+        return h.explore_instance(make_history_run(params), seconds)
+    if params.get("kind") == "reopen":
+        from harness.c12_reopen import make_reopen_run
+
+        return h.explore_instance(make_reopen_run(params), seconds)
+    return _OLD_RUN_INSTANCE(name, params, seconds)
